@@ -26,7 +26,7 @@ fn tiny_ops(audio: bool) -> Vec<COp> {
     .0;
     let mut ops = vec![COp::Video { pts: 0.0, data: key, key: true }];
     if audio {
-        let a = AdtsGene { protection_absent: true, profile: 1, sfi: 3, chan: 1, payload_len: 10, extra: 0, fill: 0, corrupt: 0 }.build(7).0;
+        let a = AdtsGene { protection_absent: true, profile: 1, sfi: 3, chan: 1, payload_len: 10, extra: 0, fill: 0, corrupt: 0 , misc: 0}.build(7).0;
         ops.push(COp::Audio { pts: 0.0, data: a });
     }
     ops.push(COp::Finish(FinishKind::InPlace));
@@ -254,7 +254,7 @@ fn meta_strategy(t: Tier) -> BoxedStrategy<MetaCase> {
     (
         valid_case_strategy(mv, ma),
         proptest::option::weighted(0.6, prop_oneof![3 => "\\PC{0,40}", 2 => "[ -~]{0,60}", 1 => Just(String::new()), 1 => "\\PC{300,1500}", 1 => any::<String>()]),
-        proptest::option::weighted(0.5, prop_oneof![3 => 0u64..4_102_444_800, 2 => 0u64..253_402_300_800]),
+        proptest::option::weighted(0.5, prop_oneof![6 => 0u64..4_102_444_800, 4 => 0u64..253_402_300_800, 1 => Just(0u64), 1 => Just(86_399u64)]),
         proptest::option::weighted(0.6, prop_oneof![5 => "[a-z]{3}", 1 => "[A-Z]{3}", 1 => "[a-z]{0,2}", 1 => "[a-z0-9]{4,6}", 1 => "\\PC{1,4}"]),
     )
         .prop_map(|(base, title, ctime, lang)| MetaCase { base, title, ctime, lang })
